@@ -206,7 +206,7 @@ def rewrite_for(pat, expr, arrays):
                 step = arg.strip()
         if names in ([], ['step_by']):
             cmp_ = '<=' if incl else '<'
-            return ('let mut %s: usize = %s; let %s: usize = %s;' % (it, a, end, b),
+            return ('let __start_%s: usize = %s; let mut %s: usize = __start_%s; let %s: usize = %s;' % (v, a, it, v, end, b),
                     'while %s %s %s' % (it, cmp_, end),
                     'let %s = %s; %s = %s + %s;' % (pat, it, it, it, step),
                     'R1 range%s step_by(%s)' % ('=' if incl else '', step) if names else 'K0 range')
@@ -214,12 +214,13 @@ def rewrite_for(pat, expr, arrays):
             mm = re.fullmatch(r'\(\s*(\w+)\s*,\s*(\w+)\s*\)', pat)
             if not mm:
                 raise Unsupported('enumerate pattern ' + pat)
-            cnt = '__n_' + v
-            bp = 'let %s = %s; %s = %s + 1;' % (mm.group(1), cnt, cnt, cnt)
+            start = '__start_' + v
+            # the enumerate counter is a function of the iterator position: (it - start) / step
+            bp = 'let %s = (%s - %s) / %s;' % (mm.group(1), it, start, step)
             if mm.group(2) != '_':
                 bp += ' let %s = %s;' % (mm.group(2), it)
             bp += ' %s = %s + %s;' % (it, it, step)
-            return ('let mut %s: usize = %s; let %s: usize = %s; let mut %s: usize = 0;' % (it, a, end, b, cnt),
+            return ('let %s: usize = %s; let mut %s: usize = %s; let %s: usize = %s;' % (start, a, it, start, end, b),
                     'while %s < %s' % (it, end), bp, 'R4 range step_by(%s) enumerate' % step)
         if names in (['rev'], ['rev', 'step_by']) and incl:
             lo, more = '__lo_' + v, '__more_' + v
